@@ -1,6 +1,7 @@
 import KitModel.Go.Prelude
 import KitModel.CryptoGlue
 import KitModel.Crypto
+import KitModel.Crypto.Rsa
 /-!
 Driver for property C03: `kitdrv C03` reads one op per line on stdin and answers one line per
 input line by running the executable model `Kit.CryptoGlue` instantiated with the Lean-native
@@ -13,6 +14,11 @@ Ops (bytes in hex, empty = empty):
   kw dir=wrap|unwrap|unwrapprefix key= data=                                → ok out= x=
   pad dir=pad|unpad size= data=                                             → ok out=
   cbchmac dir=seal|open ctor= key= nonce= data= ad=                         → ok out= x=
+  rsa op=verify15|verifypss n= e= hash= digest= sig=                         → ok valid=true|false
+  rsa op=sign15 n= d= hash= digest= | op=signpss … salt=                     → ok sig=
+  rsa op=dec15 n= d= ct= | op=decoaep n= d= hash= label= ct=                 → ok pt= | err decryption
+  rsa op=enc15 n= e= pt= ps= | op=encoaep n= e= hash= label= pt= seed=       → ok ct=
+      (Lean-native RFC 8017 over Nat, `Kit.Crypto.Rsa`; n, e, d big-endian hex; hash = 1|256|384|512)
 Errors: `err <class>`; panics of the Go code: `panic <why>`.
 `x=` is a cross-check of the hand-written parts of the model (RFC 3394, CBC, CBC-HMAC) against
 the independently written `Kit.Crypto.kwWrap / cbcEncrypt / cbcHmacSeal`: `agree`, `differ`, `na`.
@@ -203,6 +209,42 @@ def answer (l : Line) : String :=
           render (cbcHmacSeal realPrims p key nonce data ad) (fun o => s!"out={toHex o}")
         else render (cbcHmacOpen realPrims p key nonce data ad) (fun o => s!"out={toHex o}")
     | _, _, _, _, _, _ => "bad cbchmac line"
+  | "rsa" =>
+    let num (k : String) : Option Nat := (hexOr l k).map Kit.Crypto.os2ip
+    let hashOf : Option Kit.Crypto.RsaHash :=
+      match l.nat? "hash" with
+      | some 1 => some .sha1 | some 256 => some .sha256 | some 384 => some .sha384 | some 512 => some .sha512
+      | _ => none
+    let optBytes (tag : String) (o : Option Bytes) : String :=
+      match o with
+      | some b => s!"ok {tag}={toHex b}"
+      | none => "err decryption"
+    match l.get? "op", num "n", num "e", num "d", hexOr l "digest", hexOr l "sig", hexOr l "ct",
+          hexOr l "pt", hexOr l "label" with
+    | some op, some n, some e, some d, some digest, some sig, some ct, some pt, some label =>
+      if op = "dec15" then optBytes "pt" (Kit.Crypto.rsaDecryptPkcs1v15 n d ct)
+      else if op = "enc15" then
+        match hexOr l "ps" with
+        | some ps => optBytes "ct" (Kit.Crypto.rsaEncryptPkcs1v15 n e pt ps)
+        | none => "bad rsa line"
+      else
+        match hashOf with
+        | none => "bad hash"
+        | some h =>
+          if op = "verify15" then s!"ok valid={Kit.Crypto.rsaVerifyPkcs1v15 n e h digest sig}"
+          else if op = "verifypss" then s!"ok valid={Kit.Crypto.rsaVerifyPss n e h digest sig none}"
+          else if op = "sign15" then optBytes "sig" (Kit.Crypto.rsaSignPkcs1v15 n d h digest)
+          else if op = "signpss" then
+            match hexOr l "salt" with
+            | some salt => optBytes "sig" (Kit.Crypto.rsaSignPss n d h digest salt)
+            | none => "bad rsa line"
+          else if op = "decoaep" then optBytes "pt" (Kit.Crypto.rsaDecryptOaep n d h label ct)
+          else if op = "encoaep" then
+            match hexOr l "seed" with
+            | some seed => optBytes "ct" (Kit.Crypto.rsaEncryptOaep n e h label pt seed)
+            | none => "bad rsa line"
+          else "bad rsa op"
+    | _, _, _, _, _, _, _, _, _ => "bad rsa line"
   | _ => "bad op"
 
 def main (_args : List String) : IO UInt32 := do
